@@ -1,0 +1,234 @@
+//! Verification hooks. Compiled only with `--cfg imdl_verif`.
+//!
+//! Thin wrappers that call existing crate-private functions so that an
+//! out-of-tree harness can drive them. They contain no logic of their own.
+#![allow(clippy::missing_errors_doc, clippy::missing_panics_doc, missing_docs)]
+
+use crate::common::*;
+use std::{
+  cell::RefCell,
+  collections::VecDeque,
+  panic::{catch_unwind, AssertUnwindSafe},
+  rc::Rc,
+};
+
+/// A `BufRead` that returns exactly the scripted chunks, one per `read` call
+/// (clipped to the window the caller offers).
+struct Scripted {
+  chunks: VecDeque<Vec<u8>>,
+}
+
+impl Read for Scripted {
+  fn read(&mut self, buf: &mut [u8]) -> io::Result<usize> {
+    loop {
+      match self.chunks.front_mut() {
+        None => return Ok(0),
+        Some(front) if front.is_empty() => {
+          self.chunks.pop_front();
+        }
+        Some(front) => {
+          let n = front.len().min(buf.len());
+          if n == 0 {
+            return Ok(0);
+          }
+          buf[..n].copy_from_slice(&front[..n]);
+          front.drain(..n);
+          if front.is_empty() {
+            self.chunks.pop_front();
+          }
+          return Ok(n);
+        }
+      }
+    }
+  }
+}
+
+impl BufRead for Scripted {
+  fn fill_buf(&mut self) -> io::Result<&[u8]> {
+    unimplemented!("the hasher only calls read")
+  }
+
+  fn consume(&mut self, _amt: usize) {
+    unimplemented!("the hasher only calls read")
+  }
+}
+
+/// `Hasher::hash_stdin` over scripted reads: (bencoded pieces string, length, md5 hex).
+pub fn hash_scripted(
+  md5: bool,
+  piece_length: usize,
+  reads: Vec<Vec<u8>>,
+) -> Result<(Vec<u8>, u64, Option<String>), String> {
+  let mut reader = Scripted {
+    chunks: reads.into(),
+  };
+  let (mode, pieces) = Hasher::new(md5, piece_length, None)
+    .hash_stdin(&mut reader)
+    .map_err(|e| e.to_string())?;
+  let pieces = bendy::serde::ser::to_bytes(&pieces).map_err(|e| e.to_string())?;
+  match mode {
+    Mode::Single { length, md5sum } => Ok((pieces, length.count(), md5sum.map(|d| d.to_string()))),
+    Mode::Multiple { .. } => Err("unexpected mode".into()),
+  }
+}
+
+pub fn pick_piece_length(content_size: u64) -> u64 {
+  PieceLengthPicker::from_content_size(Bytes(content_size)).count()
+}
+
+pub fn bytes_parse(text: &str) -> Result<u64, String> {
+  text
+    .parse::<Bytes>()
+    .map(Bytes::count)
+    .map_err(|e| e.to_string())
+}
+
+pub fn bytes_display(n: u64) -> String {
+  Bytes(n).to_string()
+}
+
+pub fn hostport_parse(text: &str) -> Result<String, String> {
+  text
+    .parse::<HostPort>()
+    .map(|hp| hp.to_string())
+    .map_err(|e| e.to_string())
+}
+
+pub fn hostport_to_bencode(text: &str) -> Result<Vec<u8>, String> {
+  let hp = text.parse::<HostPort>().map_err(|e| e.to_string())?;
+  bendy::serde::ser::to_bytes(&hp).map_err(|e| e.to_string())
+}
+
+pub fn hostport_from_bencode(bytes: &[u8]) -> Result<String, String> {
+  bendy::serde::de::from_bytes::<HostPort>(bytes)
+    .map(|hp| hp.to_string())
+    .map_err(|e| e.to_string())
+}
+
+/// Builds a magnet link from parts exactly as `torrent link` does and prints it.
+pub fn magnet_print(
+  infohash: [u8; 20],
+  name: Option<String>,
+  trackers: Vec<String>,
+  peers: Vec<String>,
+  indices: Vec<u64>,
+) -> Result<String, String> {
+  let mut link = MagnetLink::with_infohash(Infohash::from(infohash));
+  if let Some(name) = name {
+    link.set_name(name);
+  }
+  for tracker in trackers {
+    link.add_tracker(tracker.parse::<Url>().map_err(|e| e.to_string())?);
+  }
+  for peer in peers {
+    link.add_peer(peer.parse::<HostPort>().map_err(|e| e.to_string())?);
+  }
+  for index in indices {
+    link.add_index(index);
+  }
+  Ok(link.to_string())
+}
+
+/// Parses a magnet link: (infohash hex, name, trackers, peers).
+#[allow(clippy::type_complexity)]
+pub fn magnet_parse(
+  text: &str,
+) -> Result<(String, Option<String>, Vec<String>, Vec<String>), String> {
+  let link = text.parse::<MagnetLink>().map_err(|e| e.to_string())?;
+  Ok((
+    link.infohash.to_string(),
+    link.name.clone(),
+    link.trackers.iter().map(ToString::to_string).collect(),
+    link.peers.iter().map(ToString::to_string).collect(),
+  ))
+}
+
+/// `SortSpec::compare` on two (path components, length) pairs: -1, 0, 1.
+pub fn sort_compare(
+  specs: &[String],
+  a: (Vec<String>, u64),
+  b: (Vec<String>, u64),
+) -> Result<i32, String> {
+  let specs = specs
+    .iter()
+    .map(|s| s.parse::<SortSpec>().map_err(|e| e.to_string()))
+    .collect::<Result<Vec<SortSpec>, String>>()?;
+  let info = |(components, length): (Vec<String>, u64)| -> Result<FileInfo, String> {
+    let mut path = PathBuf::new();
+    for component in components {
+      path.push(component);
+    }
+    Ok(FileInfo {
+      path: FilePath::from_relative_path(&path).map_err(|e| e.to_string())?,
+      length: Bytes(length),
+      md5sum: None,
+    })
+  };
+  Ok(match SortSpec::compare(&specs, &info(a)?, &info(b)?) {
+    Ordering::Less => -1,
+    Ordering::Equal => 0,
+    Ordering::Greater => 1,
+  })
+}
+
+/// Fetches an info dictionary from one peer and returns its re-serialisation,
+/// exactly what `torrent from-link` would embed in the written torrent.
+pub fn peer_fetch(addr: &SocketAddr, infohash: [u8; 20]) -> Result<Vec<u8>, String> {
+  let info = peer::Client::connect(addr, Infohash::from(infohash))
+    .map_err(|e| e.to_string())?
+    .fetch_info_dict()
+    .map_err(|e| e.to_string())?;
+  bendy::serde::ser::to_bytes(&info).map_err(|e| e.to_string())
+}
+
+/// Connects to a UDP tracker and announces: the peers it would print.
+pub fn tracker_announce(addr: &SocketAddr, infohash: [u8; 20]) -> Result<Vec<String>, String> {
+  let client = tracker::Client::connect(addr).map_err(|e| e.to_string())?;
+  let peers = client
+    .announce_exchange(&Infohash::from(infohash))
+    .map_err(|e| e.to_string())?;
+  Ok(peers.iter().map(ToString::to_string).collect())
+}
+
+#[derive(Clone)]
+struct Cap(Rc<RefCell<Vec<u8>>>);
+
+impl Write for Cap {
+  fn write(&mut self, b: &[u8]) -> io::Result<usize> {
+    self.0.borrow_mut().extend_from_slice(b);
+    Ok(b.len())
+  }
+
+  fn flush(&mut self) -> io::Result<()> {
+    Ok(())
+  }
+}
+
+/// Runs a full command line in-process with captured streams:
+/// (exit status or None on panic, stdout, stderr).
+pub fn run_cli(
+  dir: PathBuf,
+  args: Vec<String>,
+  stdin: Vec<u8>,
+  out_is_term: bool,
+) -> (Option<i32>, Vec<u8>, Vec<u8>) {
+  let out = Cap(Rc::new(RefCell::new(Vec::new())));
+  let err = Cap(Rc::new(RefCell::new(Vec::new())));
+  let (o, e) = (out.clone(), err.clone());
+  let result = catch_unwind(AssertUnwindSafe(move || {
+    let mut env = Env::new(
+      dir,
+      args,
+      Box::new(Cursor::new(stdin)),
+      OutputStream::verif_new(Box::new(o), false, out_is_term),
+      OutputStream::verif_new(Box::new(e), false, false),
+    );
+    match env.status() {
+      Ok(()) => 0,
+      Err(code) => code,
+    }
+  }));
+  let out_bytes = out.0.borrow().clone();
+  let err_bytes = err.0.borrow().clone();
+  (result.ok(), out_bytes, err_bytes)
+}
